@@ -1,5 +1,5 @@
 #!/bin/sh
-# usage: mutation_campaign.sh <worktree> <N> <PROP> [PROP ...]
+# usage: [PICK_SEED=s] mutation_campaign.sh <worktree> <N> <PROP> [PROP ...]   (with PICK_SEED: another sample, appended)
 # For each property: N first-order mutants of its anchored functions (tools/mutate.py pick), each applied to a private
 # scratch worktree of /repo HEAD; (1) the repo test-suite is run with the mutant - a mutant the tests kill is not
 # interesting; (2) otherwise the property's quick check is run against it.  One JSON line per mutant is appended to
@@ -8,8 +8,9 @@ WT=$1; N=$2; shift 2
 [ -d "$WT" ] || git -C /repo worktree add -q --detach "$WT" HEAD || exit 3
 mkdir -p /verif/mutation
 for PROP in "$@"; do
-  : > /verif/mutation/$PROP.jsonl
-  for K in $(/venv/bin/python /verif/tools/mutate.py pick $PROP $N); do
+  [ -z "$PICK_SEED" ] && : > /verif/mutation/$PROP.jsonl
+  for K in $(/venv/bin/python /verif/tools/mutate.py pick $PROP $N ${PICK_SEED:-0}); do
+    grep -q "^{\"k\": $K," /verif/mutation/$PROP.jsonl 2>/dev/null && continue
     cd "$WT" && git reset -q --hard && git checkout -q --detach main
     DESC=$(/venv/bin/python /verif/tools/mutate.py apply $PROP $K "$WT" 2>/dev/null) || { echo "$PROP $K apply failed"; continue; }
     TESTS=$(cd "$WT" && PYTHONPATH=$WT/src timeout 900 /venv/bin/python -m pytest -q -x -p no:cacheprovider --timeout=300 tests 2>&1 | tail -1)
